@@ -8,6 +8,7 @@ From KV Require Import ApiView.
 From KV Require Import LockDiscipline.
 From KV.gen Require Locks.
 From KV Require Import SSTable Xxhash Block SSTFile.
+From KV Require Import Iter.
 Extraction Language OCaml.
 (* Coq's String module (identifiers of the C07 lock table) must not shadow OCaml's: it is emitted as String0 *)
 Extraction Blacklist String.
@@ -32,4 +33,6 @@ Separate Extraction
   SSTFile.file_parts SSTFile.parts_bytes SSTFile.enc_footer SSTFile.read_file SSTFile.upd
   SSTFile.bl_of_block SSTFile.bl_contains SSTFile.bl_bytes SSTFile.parse_locator SSTFile.filters_bytes
   Block.slice
+  Iter.eng_it Iter.eng_range_it Iter.tx_it Iter.tx_range_it Iter.eng_iter Iter.tx_full Iter.tx_range
+  Iter.filtered_iter Iter.prefix_filter Iter.suffix_filter Iter.scan Iter.collect Iter.eng_sources
 .
